@@ -143,6 +143,7 @@ pub fn gen_profile(name: &str, rng: &mut Rng) -> (GenCfg, bool, Option<VolCfg>) 
                 clusters: if fat == 12 { rng.range(4, 30) as u32 } else { 4085 },
                 extra: 0,
                 garbage: rng.chance(1, 2),
+                slack: 1,
             });
         }
         "dirfill" => {
@@ -160,12 +161,13 @@ pub fn gen_profile(name: &str, rng: &mut Rng) -> (GenCfg, bool, Option<VolCfg>) 
             force = Some(VolCfg {
                 fat: if fat32 { 32 } else { 12 },
                 bps: 512,
-                spc: 1,
+                spc: if fat32 { 1 } else { *rng.pick(&[1u8, 2, 4]) },
                 nfats: 1 + rng.below(2) as u8,
                 root_entries: if fat32 { 0 } else { 512 },
                 clusters: if fat32 { 65525 } else { rng.range(5, 24) as u32 },
-                extra: 0,
+                extra: if rng.chance(1, 2) { 4096 } else { 0 },
                 garbage: rng.chance(1, 2),
+                slack: 1 + rng.below(3) as u8,
             });
         }
         "tree" => {
